@@ -35,6 +35,32 @@ def state_of(facts):
     return ents
 
 
+def op_modes(vetoes, nops):
+    """mixed transactions (harness store_c16s.go): per operation (context b|s|n|u|x|y, swallow, decoration) from the pseudo
+    veto '@m' ; None for an ordinary transaction"""
+    for st, _, i in vetoes:
+        if st == "@m":
+            ms = bytes.fromhex(i).decode("latin-1") if i != "-" else ""
+            out = []
+            for k in range(nops):
+                m = ms[3 * k:3 * k + 3]
+                out.append((m[0], m[1] == "w", m[2]) if len(m) == 3 else ("b", False, "-"))
+            return out
+    return None
+
+
+def swallow_tokens(tx):
+    """NW:<op>:<n>:<paths> and RB:<op>:same|diff of one transaction observation -> {op: (n, paths, rb)}"""
+    out = {}
+    for t in tx["other"]:
+        p = t.split(":", 3)
+        if p[0] == "NW":
+            out.setdefault(int(p[1]), [0, "", "same"])[0:2] = [int(p[2]), p[3] if len(p) > 3 else ""]
+        elif p[0] == "RB":
+            out.setdefault(int(p[1]), [0, "", "same"])[2] = p[2]
+    return out
+
+
 def proj_sys(tx):
     """the C16 projection: results + E facts + isSystem facts (raw and as loaded through every store)"""
     facts = tuple(f for f in tx["facts"] if f.startswith("E:") or (f.startswith("F:") and f.split(":")[3] == "isSystem"))
@@ -57,39 +83,67 @@ def oracle(sch, txs, io, mo):
     fam = sys_families(sch)
     prev = {}
     for k, (t, a) in enumerate(zip(txs, io)):
-        tsys, _, _, ops = storefamx.parse_ops(t)
+        tsys, _, vetoes, ops = storefamx.parse_ops(t)
+        modes = op_modes(vetoes, len(ops))
+        # the context kind of every operation, from the case line alone: the base context of the transaction, or a system
+        # context derived from it (GetSystemContext / NewSystemMutateContext / nested Db.Update) for this operation only
+        def kind(j):
+            c = modes[j][0] if modes is not None else "b"
+            return True if c in "snuy" else False if c == "x" else tsys
+        op_sys = [kind(j) for j in range(len(ops))]
         cur = state_of(a["facts"])
         if "panic" in a["results"]:
             out.append(("C16:panic", "the library panicked inside the transaction", k))
             break
-        # (i) in an ordinary context no operation on a system entity of a constrained family succeeds
-        if not tsys:
-            for j, op in enumerate(ops):
-                if j >= len(a["results"]) or a["results"][j] != "ok" or op["kind"] not in ("C", "UP", "D"):
-                    continue
+        # (0) a refusal the caller ignored: the refused operation must not have written anything (dump of the whole bolt
+        # file before / after the operation inside the transaction; LoadById before / after)
+        for j, (n, paths, rb) in sorted(swallow_tokens(a).items()):
+            if n or rb != "same":
+                out.append(("C16:refused-update-wrote", "the ordinary-context Update of system entity %s %s (op %d, through %s) was "
+                            "refused with an error but had already written: %d bolt paths differ inside the transaction (%s); "
+                            "LoadById before/after: %s. A caller that does not roll back (reads in the same transaction, or "
+                            "ignores the error and commits) sees a system entity changed from an ordinary context"
+                            % (sch.root(ops[j]["store"]), ops[j]["id"], j, ops[j]["store"], n, paths, rb), k))
+        # (i) through an ordinary context no operation on a system entity of a constrained family succeeds; the stored flag
+        # is followed through the operations of the transaction (a system-context operation may delete / re-create an id)
+        flag_now = dict((key, e["flag"]) for key, e in prev.items())
+        derived_before = False
+        for j, op in enumerate(ops):
+            if j >= len(a["results"]):
+                break
+            ok = a["results"][j] == "ok"
+            if op["kind"] in ("C", "UP", "D") and sch.root(op["store"]) in fam and not op_sys[j] and ok:
                 root = sch.root(op["store"])
-                if root not in fam:
-                    continue
+                ctxt = " (after a system context had been derived from the same context object earlier in the transaction)" \
+                    if derived_before else ""
                 if op["kind"] == "C" and op["sys"]:
+                    deco = " [entity with Migrate=true and explicit timestamps]" if modes and modes[j][2] in "mx" else ""
                     out.append(("C16:system-create-in-ordinary-context", "Create of %s %s with the system flag succeeded in a "
-                                "non-system transaction (op %d)" % (op["store"], op["id"], j), k))
-                elif op["kind"] in ("UP", "D") and prev.get((root, op["id"]), {}).get("flag") == "b1":
+                                "non-system context (op %d)%s%s" % (op["store"], op["id"], j, deco, ctxt), k))
+                elif op["kind"] in ("UP", "D") and flag_now.get((root, op["id"])) == "b1":
                     what = "Update" if op["kind"] == "UP" else "DeleteById"
                     out.append(("C16:system-%s-in-ordinary-context" % ("update" if op["kind"] == "UP" else "delete"),
-                                "%s through %s of system entity %s %s succeeded in a non-system transaction (op %d)"
-                                % (what, op["store"], root, op["id"], j), k))
-            # ... and the committed state shows every system entity untouched (also through cascades and child stores)
-            if a["commit"]:
-                for (root, i), e in prev.items():
-                    if root in fam and e["flag"] == "b1":
-                        e2 = cur.get((root, i))
-                        if e2 is None:
-                            out.append(("C16:system-entity-removed-in-ordinary-context", "system entity %s %s disappeared in a "
-                                        "committed non-system transaction" % (root, i), k))
-                        elif e2["fields"] != e["fields"]:
-                            out.append(("C16:system-entity-changed-in-ordinary-context", "system entity %s %s changed in a committed "
-                                        "non-system transaction: +%s -%s" % (root, i, sorted(e2["fields"] - e["fields"])[:4],
-                                                                             sorted(e["fields"] - e2["fields"])[:4]), k))
+                                "%s through %s of system entity %s %s succeeded in a non-system context (op %d)%s"
+                                % (what, op["store"], root, op["id"], j, ctxt), k))
+            if ok and op["kind"] == "C":
+                flag_now[(sch.root(op["store"]), op["id"])] = "b1" if op["sys"] else "absent"
+            elif ok and op["kind"] == "D":
+                flag_now.pop((sch.root(op["store"]), op["id"]), None)
+            if modes is not None and modes[j][0] in "snu":
+                derived_before = True
+        # ... and the committed state shows every system entity untouched (also through cascades and child stores) when no
+        # operation of the transaction ran through a system context
+        if not any(op_sys) and a["commit"]:
+            for (root, i), e in prev.items():
+                if root in fam and e["flag"] == "b1":
+                    e2 = cur.get((root, i))
+                    if e2 is None:
+                        out.append(("C16:system-entity-removed-in-ordinary-context", "system entity %s %s disappeared in a "
+                                    "committed non-system transaction" % (root, i), k))
+                    elif e2["fields"] != e["fields"]:
+                        out.append(("C16:system-entity-changed-in-ordinary-context", "system entity %s %s changed in a committed "
+                                    "non-system transaction: +%s -%s" % (root, i, sorted(e2["fields"] - e["fields"])[:4],
+                                                                         sorted(e["fields"] - e2["fields"])[:4]), k))
         # (ii) the flag of an entity never changes between its creation and its deletion (any store, any context)
         created = set((sch.root(op["store"]), op["id"]) for j, op in enumerate(ops)
                       if op["kind"] == "C" and j < len(a["results"]) and a["results"][j] == "ok")
@@ -98,19 +152,21 @@ def oracle(sch, txs, io, mo):
             if e2 is not None and e2["flag"] != e["flag"] and key not in created:
                 out.append(("C16:flag-changed", "the isSystem flag of %s %s changed from %s to %s without the entity being "
                             "re-created" % (key[0], key[1], e["flag"], e2["flag"]), k))
-        # a create stores exactly the requested flag
+        # a create stores exactly the requested flag (also for entities created with Migrate / explicit timestamps / tags)
         if a["commit"]:
             last = {}
             for j, op in enumerate(ops):
+                if j >= len(a["results"]) or a["results"][j] != "ok":
+                    continue
                 if op["kind"] == "C":
-                    last[(sch.root(op["store"]), op["id"])] = op["sys"]
+                    last[(sch.root(op["store"]), op["id"])] = (op["sys"], modes[j][2] if modes else "-")
                 elif op["kind"] == "D":
                     last.pop((sch.root(op["store"]), op["id"]), None)
-            for key, want in last.items():
+            for key, (want, deco) in last.items():
                 e2 = cur.get(key)
                 if e2 is not None and (e2["flag"] == "b1") != want:
-                    out.append(("C16:flag-not-as-created", "%s %s was created with system flag %s but stores %s"
-                                % (key[0], key[1], want, e2["flag"]), k))
+                    out.append(("C16:flag-not-as-created", "%s %s was created with system flag %s%s but stores %s"
+                                % (key[0], key[1], want, " and Migrate=true" if deco in "mx" else "", e2["flag"]), k))
         # a failed transaction leaves everything as it was (the refused attempt left the entity unchanged)
         if not a["commit"] and cur != prev:
             out.append(("C16:refused-attempt-changed-state", "a rolled-back transaction changed entities", k))
@@ -126,11 +182,13 @@ def nontrivial(sch, txs, io):
     prev = {}
     hit = False
     for t, a in zip(txs, io):
-        tsys, _, _, ops = storefamx.parse_ops(t)
+        tsys, _, vetoes, ops = storefamx.parse_ops(t)
         for j, op in enumerate(ops):
             if j < len(a["results"]) and op["kind"] in ("UP", "D") and sch.root(op["store"]) in fam and \
                     prev.get((sch.root(op["store"]), op["id"]), {}).get("flag") == "b1":
                 hit = True
+        if swallow_tokens(a):
+            hit = True
         prev = state_of(a["facts"])
     return hit
 
@@ -152,7 +210,14 @@ def main(argv):
         "extracted machine: op results, entities, isSystem flags (raw and loaded). Oracle on the implementation alone: no create-with-flag "
         "/ update / delete of a system entity succeeds in an ordinary context and committed ordinary transactions leave system entities "
         "untouched; the flag never changes while the entity lives and equals the requested one after create; refused attempts change "
-        "nothing. Non-trivial: the history updates or deletes an existing system entity of a constrained family.",
+        "nothing. ~40% of the generated transactions are MIXED (store_c16s.go): the operations of one Db.Update body use different "
+        "context objects (the base context; ctx.GetSystemContext() / NewSystemMutateContext(ctx) / a nested Db.Update derived "
+        "from it inside the body, then the base context object again on a system entity), the body ignores the refusal of an "
+        "update of a system entity and commits (the whole bolt file is dumped before and after the refused operation inside "
+        "the transaction: nothing may differ), entities are created / updated with Migrate=true + explicit timestamps and tags. "
+        "Model counterpart Store/SystemMixed.v (per-operation context kind, swallowed refusals continue from the unchanged "
+        "state). Non-trivial: the history updates or deletes an existing system entity of a constrained family, or a refusal "
+        "was swallowed.",
         nontrivial=nontrivial)
     if not proof_ok:
         c.violation(PID + ":proof", "proof obligation no longer checks: %s" % json.dumps(c.proof_broken)[:600],
